@@ -592,7 +592,7 @@ fn props_connect(rng: &mut Rng) -> Vec<Property> {
         v.push(mqtt::packet::TopicAliasMaximum::new(*rng.pick(&[0u16, 1, 2, 3])).unwrap().into());
     }
     if rng.chance(1, 3) {
-        v.push(mqtt::packet::MaximumPacketSize::new(*rng.pick(&[1u32, 2, 3, 4, 5, 12, 20, 30, 45, 200])).unwrap().into());
+        v.push(mqtt::packet::MaximumPacketSize::new(*rng.pick(&[1u32, 2, 3, 4, 5, 12, 20, 30, 45, 200, 120, 124, 126, 127, 128, 129, 130, 131, 132, 134])).unwrap().into());
     }
     if rng.chance(1, 2) {
         v.push(mqtt::packet::SessionExpiryInterval::new(*rng.pick(&[0u32, 100, 0xFFFF_FFFF])).unwrap().into());
@@ -653,7 +653,8 @@ pub fn mk_connack(rng: &mut Rng, ver: u64) -> Packet {
 
 pub fn mk_publish(rng: &mut Rng, ver: u64, qos: u8, pid: u64, dup: bool) -> Option<Packet> {
     let topic = *rng.pick(&TOPICS);
-    let paylen = *rng.pick(&[0usize, 1, 3, 20]);
+    // mostly small; sometimes a size that puts the Remaining Length next to the 127/128 boundary
+    let paylen = if rng.chance(1, 7) { rng.range(88, 126) as usize } else { *rng.pick(&[0usize, 1, 3, 20]) };
     let payload = vec![0x61u8; paylen];
     let q = match qos {
         0 => Qos::AtMostOnce,
@@ -732,15 +733,28 @@ pub fn mk_ack(rng: &mut Rng, ver: u64, ty: u64, pid: u64) -> Option<Packet> {
             }
             6 => {
                 let b = v5_0::GenericPubrel::<Pid>::builder().packet_id(id);
-                if explicit {
-                    b.reason_code(PubrelReasonCode::Success).build().ok()?.into()
+                // a reason code may come with properties (Reason String / User Property): the packet is then larger than 4 bytes
+                let with_props = rng.chance(1, 3);
+                let props: Vec<Property> = if with_props {
+                    vec![mqtt::packet::ReasonString::new("abc").unwrap().into()]
+                } else {
+                    Vec::new()
+                };
+                if fail && rng.chance(1, 2) {
+                    let b = b.reason_code(PubrelReasonCode::PacketIdentifierNotFound);
+                    if with_props { b.props(props).build().ok()?.into() } else { b.build().ok()?.into() }
+                } else if explicit || with_props {
+                    let b = b.reason_code(PubrelReasonCode::Success);
+                    if with_props { b.props(props).build().ok()?.into() } else { b.build().ok()?.into() }
                 } else {
                     b.build().ok()?.into()
                 }
             }
             7 => {
                 let b = v5_0::GenericPubcomp::<Pid>::builder().packet_id(id);
-                if explicit {
+                if fail && rng.chance(1, 2) {
+                    b.reason_code(PubcompReasonCode::PacketIdentifierNotFound).build().ok()?.into()
+                } else if explicit {
                     b.reason_code(PubcompReasonCode::Success).build().ok()?.into()
                 } else {
                     b.build().ok()?.into()
